@@ -101,8 +101,8 @@ CASES += [
       "            twod.set_data(numpy.array(self.d__data[:,:]), dtype=dtype)\n        finally:\n            self.set_data_flag(flag_saved)\n",
       "            twod.set_data(numpy.array(self.d__data[:,:]), dtype=dtype)\n        finally:\n            pass\n"),
     m("_add_data leaves the flag on the cell", "C19-K",
-      "                                   dtype=dtype, tag=tag)\n        finally:\n            self.set_data_flag(flag_saved)\n",
-      "                                   dtype=dtype, tag=tag)\n        finally:\n            pass\n"),
+      "            raise\n        finally:\n            self.set_data_flag(flag_saved)\n",
+      "            raise\n        finally:\n            pass\n"),
 ]
 
 CASES += [
@@ -131,4 +131,14 @@ CASES += [
     t("argument of an addition checked through its shape attribute",
       "        if numpy.shape(data) != (self.xaxis.length, self.yaxis.length):\n            raise Exception(\"Data not consistent with spectrum axes\")\n\n        if not self.storage_initialized:",
       "        if not (data.shape == (self.xaxis.length, self.yaxis.length)):\n            raise Exception(\"Data not consistent with spectrum axes\")\n\n        if not self.storage_initialized:"),
+]
+
+CASES += [
+    m("refused first addition leaves the storage prepared (the repaired defect)", "C19-M",
+      "        except Exception:\n            if not initialized_saved:\n                self._d__data = storage_saved\n                self.storage_initialized = initialized_saved\n                self.storage_resolution = resolution_saved\n            raise\n",
+      ""),
+    m("roll-back forgets the resolution", "C19-M",
+      "                self.storage_resolution = resolution_saved\n            raise\n", "            raise\n"),
+    m("roll-back swallows the refusal", "C19-M",
+      "                self.storage_resolution = resolution_saved\n            raise\n", "                self.storage_resolution = resolution_saved\n"),
 ]
